@@ -331,20 +331,31 @@ PROPS = {
                 "searchGraph_no_self_loops (square, no diagonal), searchGraph_subgraph (every edge joins two points of which one lists the other) "
                 "and searchGraph_nearest_partial (the list-nearest other point survives the forward pass, the <=0 -> EPS protection, the second "
                 "greedy pass, the symmetrisation and the diagonal removal; the pruned row keeps a shortest candidate; the edge itself is kept "
-                "unless m strictly shorter edges are) about the pipeline model for diversify_prob = 1, for every neighbour graph, distance table "
-                "and argsort behaviour. degree_prune_internal is compared bit for bit with the model on rows longer / equal / shorter than the "
-                "bound with ties; for diversify_prob = 1 the model predicts the edge set of index._search_graph from the real _neighbor_graph and "
+                "unless m strictly shorter edges are) about the pipeline model for diversify_prob = 1; the pipeline over ARBITRARY draw streams "
+                "(searchGraphD draw1 draw2, of which searchGraph is the all-prune instance by rfl): searchGraphD_no_self_loops, searchGraphD_subgraph, "
+                "searchGraphD_degree for all draws; searchGraph_nearest (every draw stream: the list-nearest other point is an edge unless m shorter "
+                "ones are kept, under htie = no other point stored after it at exactly its length is strictly closer to it - vacuous for a unique "
+                "list-nearest point; no symmetry needed), searchGraph_nearest_fwd1 (ties allowed when the table is symmetric and row u's forward pass "
+                "prunes on every test), searchGraph_nearest_tied (all draws, all tie orders: it or a point tied with it survives, the final row holds a "
+                "shortest candidate), searchGraph_nearest_needs_htie (machine-checked counterexample: with ties and lucky draws an unstable argsort "
+                "lets a tied entry occlude it - the real kernels do the same on crafted rows of >= 17 equal lengths), argsort_hypotheses_satisfiable; "
+                "for every neighbour graph, distance table and argsort behaviour. degree_prune_internal is compared bit for bit with the model on rows "
+                "longer / equal / shorter than the bound with ties; for diversify_prob in {1, 0.5 (the draws tau_rand(rng_state + u) < 0.5 of both passes "
+                "replayed from index.rng_state - each pass restarts the same per-row stream, independent of the thread schedule), 0} the model "
+                "predicts the edge set of index._search_graph from the real _neighbor_graph and "
                 "the table of the index's own _distance_func, compared edge for edge after un-permuting through _vertex_order (dense and CSR, "
                 "tree_init, m down to 1, n <= 200, tie-free and tied rows); the predicate search_graph(index) of DESIGN App. G is evaluated on real "
                 "indexes across n_neighbors, pruning_degree_multiplier, diversify_prob in {1, 0.5, 0}, dense/CSR, tree_init, euclidean / cosine / "
                 "correlation incl. duplicate, parallel and 2-D correlation data (zero and slightly negative lengths)",
         "note": TB + "the sampled correspondence between the pipeline model and _init_search_graph (scipy glue included: the hand-filled COO matrix "
-                     "keeps rows in list order, transpose() is a view, maximum / setdiag / eliminate_zeros); searchGraph_nearest_partial assumes a "
-                     "symmetric distance table, ascending rows (C11), d(x,x) <= FLOAT32_EPS and covers diversify_prob = 1 only; diversify_prob < 1 "
-                     "and the _vertex_order permutation are covered by the API predicate on the real code, not by a theorem; "
+                     "keeps rows in list order, transpose() is a view, maximum / setdiag / eliminate_zeros); the nearest-neighbour theorems assume "
+                     "ascending rows (C11) and d(x,x) <= FLOAT32_EPS; clause (ii) - the list-nearest point itself is the edge - needs the tie "
+                     "hypothesis htie or (forward probability 1 + symmetric table), shown necessary by searchGraph_nearest_needs_htie (the API "
+                     "predicate tests it only for a unique list-nearest point); the _vertex_order permutation is undone and checked edge for edge by "
+                     "the harness, not by a theorem; end-to-end prediction at probability 0.5 skips tied rows (numba's argsort order unknown); "
                      "round(pruning_degree_multiplier * n_neighbors) = 0 is outside the property (numba's sort(row)[-1] then cuts nothing)",
         "explanation": "theorems over every row / neighbour graph / distance table / argsort; degree_prune_internal bit-exact; exact end-to-end "
-                       "edge-set prediction for diversify_prob = 1; API predicate for all probabilities",
+                       "edge-set prediction for diversify_prob in {1, 0.5 (replayed draws), 0}; API predicate for all probabilities",
         "assumptions": COMMON_ASSUMPTIONS + [
             "float32 lengths are totally ordered (no NaN)", "neighbour-graph rows are ascending and name no point twice (C11, C01)",
             "the metric kernel is symmetric bit for bit and d(x,x) <= FLOAT32_EPS (checked on every generated index; asymmetric tables are skipped and counted)",
